@@ -688,6 +688,27 @@ func (w *writer) member(key string, m gen.Member) {
 		}
 		w.line("subscribe", k, h)
 		w.epBody(k, nil, nil, m.Body)
+	case gen.MCollector:
+		k := key + " <- .. * <- *"
+		if len(m.Collector) == 0 {
+			w.line("collector", k, ".. * <- *"+x.sp()+":"+x.sp1()+"...")
+			return
+		}
+		w.line("collector", k, ".. * <- *"+x.sp()+":")
+		w.depth++
+		for i, c := range m.Collector {
+			var t string
+			switch c.Kind {
+			case gen.CCall:
+				t = x.AppName(c.Target) + x.sp1() + "<-" + []string{" ", "", "  "}[x.intn(3)] + c.Ep
+			case gen.CAction:
+				t = c.Ep
+			default:
+				t = c.Verb + x.sp1() + c.Ep
+			}
+			w.line("collectorentry", fmt.Sprintf("%s/%d", k, i), t+" "+x.Attribs(c.Attribs))
+		}
+		w.depth--
 	}
 }
 
